@@ -263,7 +263,7 @@ add('C01', 'exploration',
     'runtime monitoring: call-level message oracle over duet histories - every successful sending call becomes a logical message with its end offset in the byte pipe, and the receiver events of each receive_data call must equal the predictions for the messages that arrived in it',
     'A real client and a real server joined by byte pipes run random programs of 20-160 steps: requests (with priority), informational and '
     'final responses, DATA with and without padding up to the window / frame limits, trailers, END_STREAM, resets, pushes and pushed responses, '
-    'pings, PRIORITY, SETTINGS changes of five settings racing traffic (one frame in flight per endpoint), manual increments and '
+    'pings, PRIORITY, SETTINGS changes of five settings racing traffic (up to three frames in flight per endpoint), manual increments and '
     'acknowledge_received_data, about 7 percent deliberately failing calls, GOAWAY; between steps random-length prefixes (1 byte, mid-frame, '
     'everything) of either pipe are delivered. At arrival the receiver view of the stream (an RFC 5.1 model fed by that endpoint calls and '
     'arrivals) decides the expected events - header lists in the documented normal form, exact body bytes and flow-controlled length, '
@@ -271,7 +271,7 @@ add('C01', 'exploration',
     'an endpoint emits on its own are predicted from the frames. The event list of every receive_data must equal the prediction exactly, '
     'receive_data must never raise on an endpoint that has not closed the connection, raising calls must emit nothing, and everything sent '
     'must arrive. Held/violated on those executions only.',
-    'One SETTINGS frame in flight per endpoint (several in flight is the C11 known finding); header lists stay far below MAX_HEADER_LIST_SIZE; '
+    'The initial SETTINGS exchange is completed before the program starts (an update sent before the initial ACK is the remaining C11 known finding); header lists stay far below MAX_HEADER_LIST_SIZE; '
     'ENABLE_PUSH is not toggled here (C22); reads conn.state_machine.state and stream state read-only after a refused call to attribute the two known findings.')
 
 NOT_BUILT_REASON = 'check not built yet in this session (planned in DESIGN.md; no verdict claimed)'
